@@ -49,6 +49,7 @@ PLAN = {
     "C05": (["pow2", "radix", "compact+radix", "radix+format"], ["compact+radix+format", "compact+pow2", "pow2+format"]),
     "C06": (["pow2", "radix", "compact+radix", "radix+format"], ["compact+pow2", "pow2+format", "compact+radix+format"]),
     "C07": (["radix", "compact+radix", "radix+format"], ["compact+radix+format"]),
+    "C08": (["default", "radix", "format", "radix+format"], ["compact", "pow2", "compact+radix+format", "pow2+format"]),
     "C09": (["default", "compact", "pow2", "radix+format", "radix+format:checked"], ["compact+radix+format", "default:checked", "format", "radix", "compact+radix+format:checked"]),
     "C10": (["default", "default:checked", "radix+format", "radix+format:checked", "compact+radix+format"], ["compact", "format", "compact+radix+format:checked", "radix", "pow2+format"]),
     "C11": (["default", "compact", "radix+format", "compact+radix+format"], ["format", "radix", "pow2+format"]),
@@ -56,6 +57,8 @@ PLAN = {
     "C13": (["radix+format", "format", "compact+radix+format"], ["pow2+format", "compact+format"]),
     "C14": (["default", "compact", "radix+format"], ["pow2", "radix", "compact+radix+format", "format"]),
     "C15": (["default", "format", "radix+format", "compact+radix+format"], ["compact", "radix", "pow2+format"]),
+    "C16": (["default", "nostd", "compact", "pow2", "radix", "format", "radix+format", "compact+radix+format"], ["compact+format", "pow2+format", "compact+pow2", "compact+radix"]),
+    "C17": (["default", "radix+format", "compact+radix+format"], ["compact", "pow2", "format", "radix", "nostd"]),
     "C18": (["default", "pow2", "radix", "format", "radix+format"], ["compact+radix+format", "pow2+format", "nostd"]),
     "C19": (["default", "compact", "radix", "compact+radix+format"], ["pow2", "format", "compact+radix", "radix+format"]),
     "C04": (["default", "compact", "pow2", "radix", "radix+format"], ["compact+radix", "compact+radix+format", "format"]),
@@ -154,9 +157,29 @@ def write_replay(prop, cfg, profile, viol):
     return path
 
 
+def run_replay_c16(path, v):
+    cfgs = v.get("case", {}).get("configs") or []
+    if len(cfgs) != 2:
+        return None
+    outs = []
+    for cfg in cfgs:
+        if cfg not in CONFIGS or not build(cfg):
+            return "infra", f"cannot build {cfg}"
+        r = subprocess.run([binary(cfg, "release"), "replay", path], stdout=subprocess.PIPE, stderr=subprocess.STDOUT, text=True, env=ENV, timeout=600)
+        res = [l for l in r.stdout.splitlines() if l.startswith("C16-RESULT")]
+        outs.append(res[0] if res else f"(exit {r.returncode})")
+    if outs[0] == outs[1]:
+        return "pass", f"REPLAY-PASS property=C16 file={path}: both builds give {outs[0]}\n"
+    return "fail", f"REPLAY-FAIL property=C16 file={path}: {cfgs[0]}: {outs[0]} | {cfgs[1]}: {outs[1]}\nVIOLATION property=C16 replay={path}\n"
+
+
 def run_replay_file(path, strict=True):
     """returns (status, output) with status in pass|fail|infra"""
     v = json.load(open(path))
+    if v.get("property") == "C16":
+        r = run_replay_c16(path, v)
+        if r is not None:
+            return r
     cfg = v.get("config") or "default"
     profile = v.get("profile") or "release"
     if cfg not in CONFIGS:
@@ -178,6 +201,43 @@ def run_replay_file(path, strict=True):
         # the replayed call killed the process (guard-page fault, abort): the violation reproduces
         return "fail", r.stdout + f"\nreplay process killed by signal {-r.returncode}\nVIOLATION property={v.get('property')} replay={path}\n"
     return "infra", r.stdout
+
+
+def c16_dump(cfg, chunk, seed, tier):
+    env = dict(ENV)
+    env["VERIF_SEED"] = str(seed)
+    env["VERIF_TIER"] = tier
+    r = subprocess.run([binary(cfg, "release"), "c16dump", str(chunk)], env=env, stdout=subprocess.PIPE, text=True)
+    return [json.loads(l) for l in r.stdout.splitlines() if l.strip()]
+
+
+def c16_compare(partials, seed, tier):
+    """compare per-chunk hashes across builds; returns violations (cfg, profile, dict)"""
+    out = []
+    data = {cfg: p.get("extra", {}).get("c16_hashes") for cfg, profile, p in partials if profile == "release"}
+    data = {k: v for k, v in data.items() if v}
+    if len(data) < 2:
+        return out
+    for cls, compact_ok in (("parse", True), ("int_write", True), ("float_write", False)):
+        cfgs = [c for c in data if compact_ok or "compact" not in c]
+        if len(cfgs) < 2:
+            continue
+        ref = cfgs[0]
+        for other in cfgs[1:]:
+            a, b = data[ref][cls], data[other][cls]
+            diff = [i for i in range(min(len(a), len(b))) if a[i] != b[i]]
+            if not diff:
+                continue
+            k = diff[0]
+            da, db = c16_dump(ref, k, seed, tier), c16_dump(other, k, seed, tier)
+            first = next((i for i in range(min(len(da), len(db))) if da[i]["result"] != db[i]["result"]), None)
+            if first is None:
+                continue
+            case = dict(da[first]["item"])
+            case["configs"] = [ref, other]
+            case["results"] = {ref: da[first]["result"], other: db[first]["result"]}
+            out.append((ref, "release", {"subcheck": f"cross-config:{cls}", "message": f"default API result differs between builds {ref} and {other} ({len(diff)} of {len(a)} chunks differ; first differing case of chunk {k}): {da[first]['item']} -> {ref}: {da[first]['result'][:200]} | {other}: {db[first]['result'][:200]}", "case": case}))
+    return out
 
 
 def check(prop, tier):
@@ -251,6 +311,8 @@ def check(prop, tier):
         rule = p.get("rule", rule)
         for v in p["violations"]:
             violations.append((cfg, profile, v))
+    if prop == "C16":
+        violations += c16_compare(partials, seed, tier)
     status = 0
     lines = []
     for cfg, profile, v in violations:
